@@ -19,7 +19,8 @@ class Result(object):
     def __init__(self):
         self.written = []
         self.escaped = None
-        self.closed = False
+        self.closed = False          # the front-end gave the connection up on its own (not: the peer closed it)
+        self.saw_eof = False
         self.decoder = None
 
 
@@ -37,6 +38,7 @@ class FakeSocket(object):
     def recv(self, n):
         if self.chunks:
             return self.chunks.pop(0)
+        self.res.saw_eof = True
         if self.stop_with_exception:
             if self.handler is not None:
                 self.handler.running = False
@@ -151,7 +153,8 @@ def _drive_sync(frontend, framer_cls, context, decoder, chunks, res, ignore_miss
                 pass
         else:
             cls(sock, ("peer", 1), server)
-            res.closed = True            # the connected handler returns when the peer closes or after an error
+            # the connected handler returns when the peer closes (EOF seen) or when it gives the connection up itself
+            res.closed = not getattr(res, "saw_eof", False)
     except _Stop:
         pass
     except Exception as e:
